@@ -4,6 +4,7 @@
 mod glue;
 mod exprs;
 mod c01;
+mod c02;
 mod c14;
 mod c20;
 
@@ -25,6 +26,10 @@ impl Template {
 fn suite(name: &str, thorough: bool) -> Vec<Template> {
     match name {
         "c01" => c01::templates(thorough),
+        "c02" => c02::templates_stream(thorough),
+        "c03" => c02::templates_point(thorough),
+        "c08" => c02::templates_bounds(thorough),
+        "c16" => c02::templates_bounded(thorough),
         "c14" => c14::templates(thorough),
         "c20" => c20::templates(thorough),
         other => panic!("unknown suite {other}"),
